@@ -19,6 +19,22 @@ PROPS = {
         "design_ref": "§6 C14",
         "technique": "Lean 4 proof: parser ↔ inductive RFC 1035 §4.1.4 relation (sound+complete, no panic, termination); model tied to src/name/wire.rs by differential correspondence incl. exhaustive ≤5-octet buffers",
     },
+    "C18": {
+        "groups": ["rdata"],
+        "design_ref": "§6 C18",
+        "technique": "Lean 4 proof: Rdata::validate ↔ per-RFC RDATA grammar for every (class,type); Rdata::read never panics, is sound w.r.t. the decompression spec and round-trips valid RDATA; dispatch tables extracted from src/rr/rdata/mod.rs; differential correspondence incl. every (cursor, rdlength) on short messages",
+        "assumptions": [
+            "usize is 64 bits; Rdata::read is called with cursor + rdlength ≤ usize::MAX (true for every cursor that is an offset into a message); the overflow panic outside that range is modelled and compared, not constrained by the spec",
+        ],
+    },
+    "C19": {
+        "groups": ["rdata"],
+        "design_ref": "§6 C19",
+        "technique": "Lean 4 proof: Rdata::equals = spec equality (field-wise, names case-insensitive, octet-wise fallback) for every (class,type) and all inputs, hence an equivalence; RdataSetOwned::from_iter/iter = first-of-each-class; dispatch tables extracted; differential correspondence on pairs, triples and sets",
+        "assumptions": [
+            "RdataSet length prefixes use native endianness (modelled little-endian; encode and decode agree, so unobservable)",
+        ],
+    },
 }
 
 TRUSTED_BASE = [
